@@ -827,7 +827,8 @@ func ruleC17_6(c *Ctx) {
 	var inrange []*ssa.Phi
 	for _, b := range f.Blocks {
 		for _, in := range b.Instrs {
-			if ph, ok := in.(*ssa.Phi); ok && ph.Comment == "inrange" {
+			// the in-class state: a boolean phi whose incoming constants are set where the scanned byte is '[' / ']'
+			if ph, ok := in.(*ssa.Phi); ok && isBool(ph.Type().Underlying()) && c.setUnderBracket(f, ph) {
 				inrange = append(inrange, ph)
 			}
 		}
@@ -897,7 +898,8 @@ func ruleC17_7(c *Ctx) {
 			}
 			// only slices of the name (parameter 1 or phis named name)
 			isName := derives(sl.X, func(v ssa.Value) bool { return v == ssa.Value(f.Params[1]) }, false)
-			if ph, isPhi := sl.X.(*ssa.Phi); isPhi && ph.Comment == "name" {
+			if ph, isPhi := sl.X.(*ssa.Phi); isPhi && derives(ph, func(v ssa.Value) bool { return v == ssa.Value(f.Params[1]) }, true) &&
+				!derives(ph, func(v ssa.Value) bool { return v == ssa.Value(f.Params[0]) }, false) {
 				isName = true
 			}
 			if !isName {
@@ -1045,4 +1047,42 @@ func ruleC17_8(c *Ctx) {
 	if n == 0 {
 		c.undecided(R, fn, "reads of the name", f.Pos(), "no read of the name found")
 	}
+}
+
+// setUnderBracket: some incoming edge of the boolean phi carries a constant on a path where the scanned byte was
+// compared equal to '[' or ']' (the class state of the chunk scanner), directly or through another phi.
+func (c *Ctx) setUnderBracket(f *ssa.Function, ph *ssa.Phi) bool {
+	var brackets []*ssa.BinOp
+	for _, b := range f.Blocks {
+		for _, in := range b.Instrs {
+			if bo, ok := in.(*ssa.BinOp); ok && bo.Op == token.EQL {
+				if k, isK := constInt(bo.Y); isK && (k == '[' || k == ']') {
+					brackets = append(brackets, bo)
+				}
+			}
+		}
+	}
+	seen := map[*ssa.Phi]bool{}
+	var walk func(p *ssa.Phi) bool
+	walk = func(p *ssa.Phi) bool {
+		if seen[p] {
+			return false
+		}
+		seen[p] = true
+		for i, e := range p.Edges {
+			pb := p.Block().Preds[i]
+			if _, isC := e.(*ssa.Const); isC {
+				for _, bo := range brackets {
+					if c.condAt(bo, true, pb) || edgeFact(pb, p.Block(), bo, true) {
+						return true
+					}
+				}
+			}
+			if q, isPhi := e.(*ssa.Phi); isPhi && walk(q) {
+				return true
+			}
+		}
+		return false
+	}
+	return walk(ph)
 }
